@@ -71,6 +71,14 @@ Fixpoint st_of_sexp (x : sexp) : option st :=
       else if t =? "ltrue" then match args with [] => Some (SLit (LBool true)) | _ => None end
       else if t =? "lfalse" then match args with [] => Some (SLit (LBool false)) | _ => None end
       else if t =? "lnull" then match args with [] => Some (SLit LNull) | _ => None end
+      else if t =? "lstr" then
+        match args with [tok; v] => match opt_str tok, opt_str v with
+                                    | Some tok', Some v' => Some (SLit (LStr tok' v')) | _, _ => None end
+                      | _ => None end
+      else if t =? "lbytes" then
+        match args with [tok; v] => match opt_str tok, opt_str v with
+                                    | Some tok', Some v' => Some (SLit (LBytes tok' v')) | _, _ => None end
+                      | _ => None end
       else if t =? "sel" then
         match args with [a; f] => match st_of_sexp a, opt_str f with
                                   | Some a', Some f' => Some (SSel a' f') | _, _ => None end
